@@ -262,6 +262,7 @@ def _legC_one(args):
                  "T_C07_Reject", "T_C07_Accept"]
         if "slotted" in fname:
             invs += ["T_C04_Put", "T_C04_Get"]      # the slotted belt store is a StoreCore kind: wake-ups are judged too
+            invs += ["T_C12_MinTravelS", "T_C12_OrderS"]
     else:
         for k, (i, p) in tracecheck.T_STORE.items():
             invs += i
